@@ -1,4 +1,5 @@
 from __future__ import unicode_literals
+import json
 import time
 from twisted.internet import reactor
 from twisted.python import log
@@ -127,6 +128,12 @@ class WebSocketServer(websocket.WebSocketServerProtocol):
             if "type" not in msg:
                 raise Error("missing 'type'")
             self.send("ack", id=msg.get("id"))
+            try:
+                # JSON can smuggle in lone surrogates ("\\ud800"), which are
+                # not text: neither UTF-8 nor SQLite can store them
+                json.dumps(msg, ensure_ascii=False).encode("utf-8")
+            except UnicodeEncodeError:
+                raise Error("strings must be well-formed unicode")
 
             mtype = msg["type"]
             if mtype == "ping":
